@@ -18,7 +18,8 @@ Slicer: functions become let-chains in the option monad (exception = None); a `f
 of the variables its body assigns/mutates (the iterable is evaluated before the loop, as in Python); `set`/`frozenset`
 values are lists (they are only consumed through sorted / in); `cut_antecedents[f'$d..'] = s` is an anonymous entry;
 `slice_database` (a generator) becomes GenLib.gen_loop.  Not translated (GenLib primitives, tied differentially only):
-get_constants / statements_get_constants, get_metavariables, deconstruct_compressed_proof, match_axiom.
+get_constants / statements_get_constants, deconstruct_compressed_proof, match_axiom.
+Also translated: the `get_metavariables` methods of the AST classes (ast.py).
 """
 from __future__ import annotations
 
@@ -310,6 +311,101 @@ class Printer:
         m = self.method('postvisit_database', 'Database')
         self.attr = {'statements': 'statements'}
         out.append(f'Definition encode_database (omit_proof : bool) (statements : database) : list piece :=\n  {self.stmts(m.body)}.')
+        return '\n\n'.join(out)
+
+
+# ======================================================================================================== get_metavariables
+class Metavars:
+    """the `get_metavariables` methods of the AST classes (ast.py): `return {self.name}`, `return set()`,
+    `return {v.name for v in self.metavariables}`, and the accumulate loops
+        acc = set()
+        for x in self.ATTR: [if isinstance(x, (C1, ..)):] acc.update(x.get_metavariables())
+        return acc"""
+    ELEM = {('Application', 'subterms'): 'term', ('StructuredStatement', 'terms'): 'term', ('Block', 'statements'): 'stmt'}
+    ISA = {'StructuredStatement': 'is_SF_b {x} || is_SE_b {x} || is_SA_b {x} || is_SP_b {x}', 'Block': 'is_SB_b {x}',
+           'DisjointStatement': 'is_SD_b {x}', 'ConstantStatement': 'is_SC_b {x}', 'VariableStatement': 'is_SV_b {x}',
+           'FloatingStatement': 'is_SF_b {x}', 'EssentialStatement': 'is_SE_b {x}', 'AxiomaticStatement': 'is_SA_b {x}',
+           'ProvableStatement': 'is_SP_b {x}'}
+
+    def __init__(self, tree):
+        self.classes = {n.name: n for n in tree.body if isinstance(n, ast.ClassDef)}
+
+    def find(self, cls):
+        seen = set()
+        c = cls
+        while c in self.classes and c not in seen:
+            seen.add(c)
+            for m in self.classes[c].body:
+                if isinstance(m, ast.FunctionDef) and m.name == 'get_metavariables':
+                    if any(isinstance(x, ast.Raise) for x in m.body):
+                        break
+                    return c, m
+            bases = [b.id for b in self.classes[c].bases if isinstance(b, ast.Name)]
+            c = bases[0] if bases else None
+        raise SystemExit(f'mm_print_slice: no get_metavariables for class {cls}')
+
+    def body(self, cls, attr):
+        owner, m = self.find(cls)
+        where = f'{owner}.get_metavariables'
+        if [a.arg for a in m.args.args] != ['self']:
+            fail(where, m, 'signature')
+        b = [x for x in m.body if not (isinstance(x, ast.Expr) and isinstance(x.value, ast.Constant))]
+        if len(b) == 1 and isinstance(b[0], ast.Return):
+            r = b[0].value
+            if isinstance(r, ast.Call) and isinstance(r.func, ast.Name) and r.func.id == 'set' and not r.args:
+                return '[]'
+            if isinstance(r, ast.Set) and len(r.elts) == 1 and ast.unparse(r.elts[0]) == 'self.name' and 'name' in attr:
+                return f'[{attr["name"]}]'
+            if isinstance(r, ast.SetComp) and len(r.generators) == 1 and not r.generators[0].ifs \
+                    and isinstance(r.generators[0].target, ast.Name) \
+                    and ast.unparse(r.generators[0].iter) == 'self.metavariables' and 'metavariables' in attr \
+                    and ast.unparse(r.elt) == r.generators[0].target.id + '.name':
+                return f'(map (fun {v(r.generators[0].target.id)} => mv_name {v(r.generators[0].target.id)}) {attr["metavariables"]})'
+            fail(where, r, 'return expression outside the subset')
+        if len(b) == 3 and isinstance(b[0], ast.Assign) and isinstance(b[0].targets[0], ast.Name) \
+                and ast.unparse(b[0].value) == 'set()' and isinstance(b[1], ast.For) and not b[1].orelse \
+                and isinstance(b[1].target, ast.Name) and isinstance(b[2], ast.Return) \
+                and isinstance(b[2].value, ast.Name) and b[2].value.id == b[0].targets[0].id:
+            acc, x, it = b[0].targets[0].id, b[1].target.id, b[1].iter
+            if not (isinstance(it, ast.Attribute) and isinstance(it.value, ast.Name) and it.value.id == 'self'
+                    and (owner, it.attr) in self.ELEM and it.attr in attr):
+                fail(where, it, 'loop iterable outside the subset')
+            rec = 'term_get_metavariables' if self.ELEM[(owner, it.attr)] == 'term' else 'get_metavariables'
+            inner = b[1].body
+            guard = None
+            if len(inner) == 1 and isinstance(inner[0], ast.If) and not inner[0].orelse:
+                t = inner[0].test
+                if not (isinstance(t, ast.Call) and isinstance(t.func, ast.Name) and t.func.id == 'isinstance' and len(t.args) == 2
+                        and isinstance(t.args[0], ast.Name) and t.args[0].id == x):
+                    fail(where, t, 'loop guard outside the subset')
+                cs = t.args[1].elts if isinstance(t.args[1], ast.Tuple) else [t.args[1]]
+                if not all(isinstance(c, ast.Name) and c.id in self.ISA for c in cs):
+                    fail(where, t, 'isinstance class outside the subset')
+                guard = '(' + ' || '.join(self.ISA[c.id].format(x=v(x)) for c in cs) + ')'
+                inner = inner[0].body
+            if not (len(inner) == 1 and isinstance(inner[0], ast.Expr)
+                    and ast.unparse(inner[0].value) == f'{acc}.update({x}.get_metavariables())'):
+                fail(where, b[1], 'loop body is not `acc.update(x.get_metavariables())`')
+            call = f'{rec} {v(x)}'
+            if guard:
+                call = f'(if {guard} then {call} else [])'
+            return f'(flat_map (fun {v(x)} => {call}) {attr[it.attr]})'
+        fail(where, m, 'method body outside the subset')
+
+    def generate(self):
+        out = ['Fixpoint term_get_metavariables (t : term) : list string :=\n  match t with\n'
+               f'  | MV name => {self.body("Metavariable", {"name": "name"})}\n'
+               f'  | App symbol subterms => {self.body("Application", {"subterms": "subterms"})}\n  end.']
+        st = self.body  # noqa
+        out.append('Fixpoint get_metavariables (s : stmt) : list string :=\n  match s with\n'
+                   f'  | SC constants => {st("ConstantStatement", {})}\n'
+                   f'  | SV metavariables => {st("VariableStatement", {})}\n'
+                   f'  | SD metavariables => {st("DisjointStatement", {"metavariables": "metavariables"})}\n'
+                   f'  | SF label ty var => {st("FloatingStatement", {"terms": "[App ty []; MV var]"})}\n'
+                   f'  | SE label terms => {st("EssentialStatement", {"terms": "terms"})}\n'
+                   f'  | SA label terms => {st("AxiomaticStatement", {"terms": "terms"})}\n'
+                   f'  | SP label terms proof => {st("ProvableStatement", {"terms": "terms"})}\n'
+                   f'  | SB statements => {st("Block", {"statements": "statements"})}\n  end.')
         return '\n\n'.join(out)
 
 
@@ -854,6 +950,7 @@ def generate(repo):
         raise SystemExit(f'mm_print_slice: syntax error: {e}')
     text = HEADER.format(ast_py=AST_PY, slice_py=SLICE_PY)
     text += '(* ---------------------------------------------------------------- Encoder *)\n' + Printer(ta).generate()
+    text += '\n\n(* ---------------------------------------------------------------- get_metavariables *)\n' + Metavars(ta).generate()
     text += '\n\n(* ---------------------------------------------------------------- slicer *)\n' + Slicer(ts).generate()
     text += '\n\nEnd GenMM.\n'
     return text
